@@ -25,6 +25,10 @@ type Connection struct {
 
 	// Used to buffer reads
 	readBuffer io.Reader
+
+	// Buffers the encrypted bytes read from connection; bytes read ahead must
+	// survive until the next DecryptedRead
+	bufferedReader *bufio.Reader
 }
 
 // NewConnection returns a hap connection.
@@ -64,8 +68,10 @@ func (con *Connection) EncryptedWrite(b []byte) (int, error) {
 // The method returns the number of read bytes and an error when reading failed.
 func (con *Connection) DecryptedRead(b []byte) (int, error) {
 	if con.readBuffer == nil {
-		buffered := bufio.NewReader(con.connection)
-		decrypted, err := con.getDecrypter().Decrypt(buffered)
+		if con.bufferedReader == nil {
+			con.bufferedReader = bufio.NewReader(con.connection)
+		}
+		decrypted, err := con.getDecrypter().Decrypt(con.bufferedReader)
 		if err != nil {
 			if neterr, ok := err.(net.Error); ok && neterr.Timeout() {
 				// Ignore timeout error #77
